@@ -1,7 +1,7 @@
 (* Direct oracles for C08: the property statement evaluated on implementation outputs, written
    against the spec-level notions (balanced residue, exact carry identity), not against the model.
    Result: 1 = holds, 0 = fails, 2 = no statement for this record (outside the guard). *)
-From PV Require Import Base.MachineInt Model.Znx Model.Limbs Model.Flat Model.C08Run.
+From PV Require Import Base.MachineInt Model.Znx Model.Limbs Model.Flat Model.C08Run Model.C08Encode.
 Open Scope Z_scope.
 
 Definition forall2b {A B} (f : A -> B -> bool) (l1 : list A) (l2 : list B) : bool :=
@@ -87,5 +87,5 @@ Definition oracle_c08 (code : Z) (ps : list Z) (vs outs : list (list Z)) : Z :=
   | 8202 => vec_oracle ps vs outs (p ps 10) (p ps 11) (p ps 12) 1 1 false false
   | 8203 => vec_oracle ps vs outs (p ps 10) (p ps 11) (p ps 12) 1 (-1) false false
   | 8204 => vec_oracle ps vs outs (p ps 10) (p ps 11) (p ps 12) 0 (-1) false false
-  | _ => 2
+  | _ => oracle_c08_enc code ps vs outs
   end.
